@@ -589,6 +589,63 @@ func RunC17(tier string) int {
 		}
 	}
 
+	// GROUND "the sender holds every LESSER role governance can grant": through the real governance handlers the
+	// ordinary account was put on the amm pool-creator list, made a price feeder and whitelisted in both position
+	// modules. None of that is the governance authority: every governance-only message naming the sender as
+	// authority must still be refused, with every store untouched
+	{
+		t1 := w.A("t1").Addr.String()
+		g, _ := base.CacheContext()
+		g = g.WithBlockHeight(w.Height() + 1).WithBlockTime(time.Unix(w.Env.Tm+5, 0).UTC())
+		ammP := app.AmmKeeper.GetParams(g)
+		ammP.AllowedPoolCreators = append(append([]string{}, ammP.AllowedPoolCreators...), t1)
+		grants := []sdk.Msg{
+			&ammtypes.MsgUpdateParams{Authority: w.Gov, Params: &ammP},
+			&oracletypes.MsgAddPriceFeeders{Authority: w.Gov, Feeders: []string{t1}},
+			&oracletypes.MsgSetPriceFeeder{Feeder: t1, IsActive: true},
+			&perptypes.MsgWhitelist{Authority: w.Gov, WhitelistedAddress: t1},
+			&llptypes.MsgWhitelist{Authority: w.Gov, WhitelistedAddress: t1},
+		}
+		granted := 0
+		for _, gm := range grants {
+			if _, err := app.MsgServiceRouter().Handler(gm)(g, gm); err != nil {
+				vacuous = append(vacuous, "lesser-role ground: "+sdk.MsgTypeURL(gm)+" rejected: "+err.Error())
+			} else {
+				granted++
+			}
+		}
+		if granted > 0 {
+			gp := govPayloadsAt(w, g)
+			for _, u := range elys {
+				if cat[u] != "gov" || gp[u] == nil {
+					continue
+				}
+				m := cloneMsg(gp[u])
+				setField(m, sf[u], t1)
+				c, _ := g.CacheContext()
+				before := w.StoreDigest(c, nil)
+				var err error
+				func() {
+					defer func() {
+						if r := recover(); r != nil {
+							err = fmt.Errorf("panic: %v", r)
+						}
+					}()
+					_, err = app.MsgServiceRouter().Handler(m)(c, m)
+				}()
+				transitions++
+				res := "rejected"
+				if err == nil {
+					res = "ACCEPTED"
+					add(Finding{Clause: "gov_message_accepted_from_non_authority", Culprit: "direct", Disc: "type=" + u + ",ground=sender_holds_every_lesser_role", Detail: fmt.Sprintf("%s with %s = an account that is on the amm pool-creator list, a price feeder and whitelisted in both position modules (but is not the authority) was accepted; stores changed: %v", u, sf[u], digestEq(w.StoreDigest(c, nil), before))})
+				} else if d := digestEq(w.StoreDigest(c, nil), before); len(d) > 0 {
+					add(Finding{Clause: "rejected_message_changed_state", Culprit: "direct", Disc: "type=" + u + ",ground=sender_holds_every_lesser_role", Detail: fmt.Sprintf("%s was rejected yet stores %v changed", u, d)})
+				}
+				cases = append(cases, c17Case{u, "direct", "ordinary_account", "ground=sender_holds_every_lesser_role", res})
+			}
+		}
+	}
+
 	for _, m := range ownerMixedCases(w) {
 		u := sdk.MsgTypeURL(m)
 		err, diff := direct(m)
